@@ -85,7 +85,10 @@ def check_C10(tier, seed, t0):
     run = corr_run(suites_for(tier), seed, tier)
     viol, n = oracle_c10(run)
     flagged = {(v['panel'], v['site']) for v in viol}
-    for v in corr_violations('C10', run['mismatches'], ['wire', 'frames']):
+    # framing differences only: same logical (D/C, byte) stream, different transfers / D/C events.  A different logical
+    # stream is some other property's business (the theorems here are about how a given stream is framed)
+    framing = [m for m in run['mismatches'] if 'wire' in m['projs'] and 'frames' not in m['projs']]
+    for v in corr_violations('C10', framing, ['wire']):
         if (v['panel'], v['site']) not in flagged:
             viol.append(v)
     if not proof['ok']:
@@ -265,11 +268,11 @@ PARTIAL_OPS = ['update_partial_frame', 'update_partial_old_frame', 'update_parti
                'display_partial_frame', 'shift_display', 'display_frame_partial']
 WIRE = {
  # property: (projections of the correspondence it depends on, ops (None = all), description of the tie)
- 'C01': (['frames'], ENTRY_OPS + ['display_frame', 'new'], "frames projection (commands + data, contents included) of every full-frame entry point, display_frame and new"),
+ 'C01': (['image'], ENTRY_OPS + ['display_frame', 'display_new_frame', 'new', 'wake_up'], "image projection (addressing frames, RAM frames with their contents, refresh triggers, resets) of every full-frame entry point, the display calls, new and wake_up"),
  'C02': (['addr'], None, "addressing projection (window / counter / entry-mode / partial-window / resolution frames, RAM commands with their lengths, resets) of every operation"),
  'C05': (['busy'], None, "busy projection (every poll with its answer, every delay, resets, busy-raising / RAM / refresh commands) of every operation under generated busy streams and delay settings"),
- 'C06': (['frames'], PARTIAL_OPS, "frames projection of every partial entry point (boundary, malformed and canonical windows)"),
- 'C07': (['frames'], ['clear_frame', 'set_background_color', 'background_color'], "frames projection of clear_frame in every colour"),
+ 'C06': (['image'], PARTIAL_OPS, "frames projection of every partial entry point (boundary, malformed and canonical windows)"),
+ 'C07': (['image'], ['clear_frame', 'set_background_color', 'background_color'], "image projection (addressing frames, RAM frames with contents, refresh triggers) of clear_frame in every colour"),
  'C08': (['frames+rst'], ['sleep', 'wake_up', 'new'], "frames + RST projection of sleep, wake_up and new"),
  'C09': (['power'], None, "power projection (resets, every configuration / power / sleep command, refresh triggers) of every operation"),
  'C11': (['rst'], None, "reset projection (RST edges, the delays that follow them, position of SPI traffic) of every operation"),
@@ -289,6 +292,24 @@ def oracle_violations(prop, orc):
                                      clause=f['clause'], script=oracle_mod.case_text(f['script_path'], f['case']))))
     return viol
 
+def escalate_oracle(panel_names, seed):
+    """deeper search for a failing input on the implementation, for a few panels: all histories of two macro steps"""
+    from panels import BY_NAME
+    res = dict(fails=[], cases=0, ops=0, errors=[])
+    mexe, log = corr.build_model()
+    for feat in ('v3', 'v2', 'alt'):
+        ps = [p for p in vlib.panels_for(feat) if p.name in panel_names]
+        if not ps:
+            continue
+        hexe, err = corr.build_harness(feat)
+        if not hexe or not mexe:
+            continue
+        fails, st = oracle_mod.run_oracle(ps, feat, 'hist2full', seed, hexe, mexe, os.path.join(vlib.WORK, 'escalate', feat))
+        res['fails'] += fails
+        res['cases'] += st['cases']
+        res['ops'] += st['ops']
+    return res
+
 def wire_check(prop, tier, seed, t0, assumptions, extra_viol=(), extra_cov=None, suites=None, corr_filter=None):
     projs, ops, tie = WIRE[prop]
     proof = proof_status(['Properties/%s.v' % prop], clean=(tier == 'thorough'))
@@ -304,6 +325,16 @@ def wire_check(prop, tier, seed, t0, assumptions, extra_viol=(), extra_cov=None,
         if corr_filter and not corr_filter(v):
             continue
         viol.append(v)
+    # a broken correspondence with no concrete failing input yet: search deeper on the implementation for the panels
+    # concerned (every history of two macro steps + probe, judged by the observer) before reporting
+    bad_panels = sorted({v['panel'] for v in viol if v.get('no_input') and v.get('clause', '').startswith('correspondence')}
+                        - {v['panel'] for v in viol if not v.get('no_input')})
+    if bad_panels:
+        deep = escalate_oracle(bad_panels[:4], seed)
+        found = oracle_violations(prop, deep)
+        known = vlib.load_findings()
+        found = [v for v in found if not any(f.get('property') == prop and vlib.sig_matches(f, dict(v, property=prop)) for f in known)]
+        viol = found + viol
     if not proof['ok']:
         viol.append(proof_violation(prop, proof))
     for e in (run['errors'] + orc['errors'])[:3]:
@@ -362,7 +393,8 @@ def scribble_violations(seed, tier):
     os.makedirs(odir, exist_ok=True)
     def work(p):
         rng = gen.Rng(seed * 1000003 + corr.hash_name(p.name + suite))
-        cases = gen.suite(p, suite, rng)
+        # histories + probe, every ordered pair of macro steps, and long chains (every op after every op)
+        cases = gen.suite(p, suite, rng) + gen.suite(p, 'pair', rng) + gen.suite(p, 'chain', rng)
         out = []
         for flag in (0, 1):
             path = os.path.join(odir, "%s-%d.script" % (p.name, flag))
@@ -484,7 +516,9 @@ def check_C04(tier, seed, t0):
     v2, n2 = recovery_oracle(run, seed)
     viol = v1 + v2
     flagged = {(v['panel'], v['site']) for v in viol}
-    fault_mism = [m for m in run['mismatches'] if m['suite'] in ('fault', 'faultdense')]
+    # failure handling differs: the op behaves like the model without faults but not under an injected fault
+    plain = {(m['panel'], m['op']) for m in run['mismatches'] if m['suite'] not in ('fault', 'faultdense')}
+    fault_mism = [m for m in run['mismatches'] if m['suite'] in ('fault', 'faultdense') and (m['panel'], m['op']) not in plain]
     for v in corr_violations('C04', fault_mism, ['frames']):
         viol.append(v)
     if not proof['ok']:
@@ -517,6 +551,50 @@ def big_expected_block(chip, win):
     ex, ey = sx + lw - 1, ly + lh - 1
     return [sx >> 8, sx & 255, ex >> 8, ex & 255, ly >> 8, ly & 255, ey >> 8, ey & 255, 1]
 
+def big_gen_buf(n, kind, seed):
+    out = bytearray(n)
+    for i in range(n):
+        if kind == 'z':
+            b = 0
+        elif kind == 'f':
+            b = 0xff
+        elif kind == 'c':
+            b = seed & 0xff
+        else:
+            x = (i * 2654435761 + seed * 40503) & 0xffffffff
+            x ^= x >> 15
+            x = (x * 2246822519) & 0xffffffff
+            x ^= x >> 13
+            b = x & 0xff
+        out[i] = b
+    return bytes(out)
+
+def big_hash(bs):
+    h1 = h2 = 0
+    for b in bs:
+        h1 = (h1 * corr.B1 + b + 1) % corr.P1
+        h2 = (h2 * corr.B2 + b + 1) % corr.P2
+    return h1, h2
+
+def big_expected_tiling(win, buf):
+    """per chip: the row slices (bytes) the chip must receive, in order"""
+    x, y, w, h = win
+    rb = w // 8
+    k = len(buf) // rb
+    exp = {c: [] for c in BIG_RECTS}
+    for r in range(h):
+        Y = y + r
+        for c, (rx, ry, rw, rh) in BIG_RECTS.items():
+            if not (ry <= Y < ry + rh):
+                continue
+            c0, c1 = max(x // 8, rx // 8), min((x + w) // 8, (rx + rw) // 8)
+            if c1 <= c0:
+                continue
+            j0 = c0 - x // 8
+            off = (r % k) * rb + j0
+            exp[c].append(buf[off: off + (c1 - c0)])
+    return exp
+
 def big_oracle(script_text, real_text):
     """C15 clauses evaluated on the REAL traces of the 12.48in driver"""
     viol = []
@@ -540,6 +618,7 @@ def big_oracle(script_text, real_text):
             touched = False
             last_cmd = {}
             blocks = {}
+            got = {c: [] for c in BIG_RECTS}
             def bad(clause, detail):
                 viol.append(dict(panel='epd12in48b_v2', site=name, clause=clause, detail="%s: %s" % (heads.get(cid, cid), detail),
                                  replay=dict(kind='trace', panel='epd12in48b_v2', feat='v3', op_index=i,
@@ -575,6 +654,8 @@ def big_oracle(script_text, real_text):
                     elif t[0] == 'W' and dcs[0] == 1:
                         if name.startswith('write_data') and all(last_cmd.get(c) in (0x10, 0x13) for c in sel) and len(sel) != 1:
                             bad('pixel-data-to-several-chips', "%s selected=%s" % (l[:40], sel))
+                        if name.startswith('write_data') and len(sel) == 1 and last_cmd.get(sel[0]) in (0x10, 0x13):
+                            got[sel[0]].append((int(t[1]), int(t[2]), int(t[3])))
                         for c in sel:
                             if last_cmd.get(c) == 0x90 and len(t) > 4:
                                 blocks[c] = [int(t[4][k:k + 2], 16) for k in range(0, len(t[4]), 2)]
@@ -586,6 +667,22 @@ def big_oracle(script_text, real_text):
                         bad('lines-not-released', str({k: v for k, v in pins.items() if 'rst' not in k}))
                     elif res is not None and res.startswith('ERR'):
                         bad('lines-not-released-after-error', str({k: v for k, v in pins.items() if 'rst' not in k}))
+            if okres and name in ('write_data1', 'write_data2', 'write_data1_partial', 'write_data2_partial'):
+                try:
+                    n, kind, sd = toks[1].split(':')
+                    wn = tuple(int(v) for v in toks[-4:]) if name.endswith('partial') else (0, 0, 1304, 984)
+                except ValueError:
+                    wn = None
+                if wn and wn[0] % 8 == 0 and wn[2] % 8 == 0 and wn[2] > 0 and wn[3] > 0 and wn[0] + wn[2] <= 1304 and wn[1] + wn[3] <= 984 \
+                        and int(n) > 0 and int(n) % (wn[2] // 8) == 0:
+                    exp = big_expected_tiling(wn, big_gen_buf(int(n), kind, int(sd)))
+                    for c in ('s2', 'm2', 'm1', 's1'):
+                        want = [(len(b),) + big_hash(b) for b in exp[c]]
+                        if got[c] != want:
+                            k = next((j for j, (a, b) in enumerate(zip(got[c], want)) if a != b), min(len(got[c]), len(want)))
+                            bad('tiling', "chip %s window %s buffer %s: data write #%d differs from the window bytes this chip owns (%d writes sent, %d expected)" % (
+                                c, wn, toks[1], k, len(got[c]), len(want)))
+                            break
             if okres and name in ('write_data1_partial', 'write_data2_partial', 'refresh_display_partial', 'begin_refresh_display_partial'):
                 try:
                     wn = tuple(int(v) for v in toks[-4:])
